@@ -37,6 +37,9 @@ def _find_func(tree, cls, fn):
     return None
 
 
+SUFFIX_CLAUSE = "not self.selector.endswith('/.')"
+
+
 def _finds_in_and(fn):
     """`return (self.selector.find(c) == -1) and ...` -> [c, ...] plus the list of other
     conjunct sources; None if the shape is not recognised."""
@@ -103,8 +106,11 @@ def base_filter(info):
     try:
         fn = _find_func(ast.parse(src), "BaseHandler", "isrequestsecure")
         r = _finds_in_and(fn) if fn else None
-        if r and not r[1]:
+        # the one conjunct that is not a substring test: the model's `secureB` has it built in
+        # (a final "/." is refused); its presence in the code is checked by the `secure` correspondence
+        if r and all(o == SUFFIX_CLAUSE for o in r[1]):
             info["forbidden"] = "ast"
+            info["forbiddenSuffixClause"] = bool(r[1])
             return r[0]
     except SyntaxError:
         pass
